@@ -105,6 +105,20 @@ def prop_order(case):
             for l in conn_out[id(n)]:
                 if rpos[id(l.reader)] >= rpos[id(n)]:
                     raise Violation(f'node {n.name} comes before its reader {l.reader.name} in reversed_topological_order')
+    # --- the iterators are independent of each other: two of them consumed in lock step, and one consumed inside another's loop
+    both = list(zip(c.topological_order(), c.topological_order_with_level(), c.reversed_topological_order()))
+    if [id(a) for a, _, _ in both] != [id(n) for n in order] or [(id(n), int(l)) for _, (n, l), _ in both] != [(id(n), int(l)) for n, l in got] \
+            or [id(r) for _, _, r in both] != [id(n) for n in rorder]:
+        raise Violation('traversals consumed in lock step (zip) differ from the same traversals consumed one after the other')
+    nested = []
+    for i, n in enumerate(c.topological_order()):
+        nested.append(n)
+        if i == N // 2:
+            inner = list(c.topological_line_order())
+            if [l.index for l in inner] != [l.index for l in lines]:
+                raise Violation('topological_line_order started inside a topological_order loop differs from a stand-alone call')
+    if [id(n) for n in nested] != [id(n) for n in order]:
+        raise Violation('topological_order differs when another traversal runs inside its loop')
     # --- fanin
     origins = []
     for r in case['origins']:
